@@ -73,7 +73,8 @@ def floors(tier):
     f = {f"field_decided:{x}": (15 if x == "max_wallclock_time" else 30) * k for x in FIELDS}
     f.update({"ended:exception": 50 * k, "ended:exhaustion": 30 * k, "ended:failure_limit": 30 * k, "ended:criterion": 150 * k,
               "decided:loop_ends": 5000 * k, "decided:counters_vs_history": 5000 * k, "decided:post_run_state": 400 * k,
-              "decided:budget_overshoot": 100 * k, "runs:wait_trial_completion": 60 * k, "decided:results_file_rows": 300 * k})
+              "decided:budget_overshoot": 100 * k, "runs:wait_trial_completion": 60 * k, "decided:results_file_rows": 300 * k,
+              "decided:reentry_with_criterion_holding": 30 * k})
     return f
 
 
@@ -416,6 +417,34 @@ def run_case(spec):
             except Exception as e:  # noqa: BLE001
                 if rows_cb > 0:
                     V("final_results_stored", "results_file_unreadable:" + type(e).__name__, error=repr(e)[:200])
+    # ---- run() entered while the criterion already holds (the tuner is run again; its status is retained): the
+    # criterion is evaluated before the first iteration, so nothing may be started
+    if ended == "criterion" and ending == "criterion" and not viol[0] and first_hold is not None and not inj and (spec["seed"] // 3) % 2 == 0:
+        st = tuner.tuning_status
+        count_stop = {f: v for f, v in p["stop"].items() if f != "max_wallclock_time"}
+        holds_now = ref_criterion(count_stop, st, sim) if st is not None else []
+        from syne_tune.optimizer.schedulers import FIFOScheduler
+
+        if holds_now and sim and isinstance(r.scheduler, FIFOScheduler):
+            # documented restriction: FIFOScheduler.set_time_keeper asserts that the simulator's time keeper is
+            # assigned only once, so a simulated experiment with such a scheduler cannot be run again
+            o.count("reentry_skipped:time_keeper_assigned_once")
+        elif holds_now:
+            n0 = len(events)
+            r.exc = None
+            r.run()
+            o.count("decided:reentry_with_criterion_holding")
+            if r.exc is not None:
+                if type(r.exc).__name__ == "LoopBoundExceeded":
+                    V("no_start_once_criterion_holds", "rerun_with_criterion_holding_does_not_return", fields=holds_now)
+                else:
+                    V("no_start_once_criterion_holds", "rerun_with_criterion_holding_raised:" + type(r.exc).__name__,
+                      fields=holds_now, error=repr(r.exc)[:200])
+            for idx, k, pl in events[n0:]:
+                if k in ("b.start_trial.call", "b.resume_trial.call"):
+                    V("no_start_once_criterion_holds", "trial_started_by_run_entered_with_criterion_holding", fields=holds_now,
+                      call=k, counters={"started": st.num_trials_started, "completed": st.num_trials_completed})
+                    break
     if hasattr(r, "cleanup"):
         r.cleanup()
     else:
